@@ -600,6 +600,12 @@ def rule_c05(an, res):
                                   and ttl_source_ok(cm, roles, m, seg, v[3]))
                             if not ok and isinstance(v, tuple) and v[0] == 'bin' and v[1] == '+' and v[3] in clocks and ttl_source_ok(cm, roles, m, seg, v[2]):
                                 ok = len(clocks) == 1
+                            if not ok and cm.name == 'tlru_cache' and isinstance(v, tuple) and v[:1] == ('p',) and \
+                                    any('time_point' in (p.get('type', {}).get('qualType', '') or '') for p in m.params) and \
+                                    not any('duration' in (p.get('type', {}).get('qualType', '') or '') for p in m.params):
+                                # an overload that takes the absolute deadline instead of a ttl: the ttl supplied with the call is
+                                # deadline - now, so the entry expires exactly at the time point handed in
+                                ok = len([p for p in m.params if 'time_point' in (p.get('type', {}).get('qualType', '') or '')]) == 1
                             res.ob('R-DEADLINE-PROV', ok=ok)
                             res.sample(dict(container=cm.name, method=where_of(m, seg), deadline=show(v)), cap=8)
                             if not ok:
